@@ -21,14 +21,11 @@ var verifFence int32
 // channel is empty.  Serve takes events one at a time in order, so once the no-op has been taken every
 // event sent before it has been processed completely.  Returns false on timeout (Serve wedged or gone).
 func (s *Server) VerifBarrier(timeout time.Duration) (ok bool) {
-	defer func() {
-		if recover() != nil { // channel closed: Serve has returned
-			ok = false
-		}
-	}()
-	s.evtCh <- Event{}
+	if !s.evtQ.put(Event{}) { // queue closed: Serve has returned
+		return false
+	}
 	deadline := time.Now().Add(timeout)
-	for len(s.evtCh) != 0 {
+	for s.VerifQueued() != 0 {
 		if time.Now().After(deadline) {
 			return false
 		}
@@ -38,8 +35,19 @@ func (s *Server) VerifBarrier(timeout time.Duration) (ok bool) {
 	return true
 }
 
-// VerifQueued is the number of events waiting in the channel.
-func (s *Server) VerifQueued() int { return len(s.evtCh) }
+// VerifQueued is the number of events waiting in the queue.
+func (s *Server) VerifQueued() int {
+	s.evtQ.mu.Lock()
+	defer s.evtQ.mu.Unlock()
+	return len(s.evtQ.events)
+}
+
+// VerifClosed: Serve has returned and closed the queue (posts are dropped from now on).
+func (s *Server) VerifClosed() bool {
+	s.evtQ.mu.Lock()
+	defer s.evtQ.mu.Unlock()
+	return s.evtQ.closed
+}
 
 type VerifEntry struct {
 	SEID uint64
